@@ -122,7 +122,8 @@ def formula_fits(f, dc, dr):
 def generate(seed):
     rng = random.Random(seed)
     nsheets = rng.randint(1, 3)
-    pool = ['Sheet1', 'Data 2', 'Q&A', "it's", 'a<b>', 'Zahlen"x"', '日本', 'R1']
+    # 'R&amp;D' is a name that itself contains the characters of an entity (written &amp;amp; in the file)
+    pool = ['Sheet1', 'Data 2', 'Q&A', "it's", 'a<b>', 'Zahlen"x"', '日本', 'R1', 'R&amp;D', 'x&#65;y']
     rng.shuffle(pool)
     names = pool[:nsheets]
     plain_names = [n for n in names if n.isalnum() and not n[0].isdigit() and n != 'R1']
@@ -362,7 +363,11 @@ def generate(seed):
             merges.append(m)
         cols = ''
         if rng.random() < 0.5:
-            cols = '<cols><col min="2" max="4" width="%s" customWidth="1"/><col min="7" max="7" width="22.5" hidden="1" customWidth="1"/></cols>' % rng.choice(['9.5', '15', '30.25'])
+            # columns 9 and 10 agree in everything but formatting (one of them refers to a cell xf)
+            sty = rng.randrange(1, len(xfs))
+            pair = rng.choice(['<col min="9" max="9" width="12.5" style="%d" customWidth="1"/><col min="10" max="10" width="12.5" customWidth="1"/>' % sty,
+                               '<col min="9" max="9" width="12.5" customWidth="1"/><col min="10" max="10" width="12.5" style="%d" customWidth="1"/>' % sty, ''])
+            cols = '<cols><col min="2" max="4" width="%s" customWidth="1"/><col min="7" max="7" width="22.5" hidden="1" customWidth="1"/>%s</cols>' % (rng.choice(['9.5', '15', '30.25']), pair)
             features.add('cols-span')
         table_parts = ''
         for t in tables:
